@@ -18,11 +18,49 @@ const builtinPrelude = `
 (declare-fun int.or (Int Int) Int)
 (declare-fun int.and (Int Int) Int)
 (declare-fun i2w32 (Int) (_ BitVec 32))
-(declare-fun w2i32 ((_ BitVec 32)) Int)
+(define-fun w2i32 ((x (_ BitVec 32))) Int (bv2nat x))
 (declare-fun i2w64 (Int) (_ BitVec 64))
 (declare-fun w2i64 ((_ BitVec 64)) Int)
 (assert (forall ((x Int)) (! (= (int.or x 0) x) :pattern ((int.or x 0)))))
 `
+
+// PreludeOpaque: the full prelude, except that the named spec functions are declared instead of defined
+// (a proof that does not unfold them holds for every definition, in particular the real one).
+func (e *Engine) PreludeOpaque(opaque []string) string {
+	if len(opaque) == 0 {
+		return e.Prelude()
+	}
+	set := map[string]bool{}
+	for _, o := range opaque {
+		set[o] = true
+	}
+	var b strings.Builder
+	b.WriteString("(set-option :produce-models true)\n(set-logic ALL)\n")
+	conv := func(text string) {
+		xs, err := parseSX(text)
+		if err != nil {
+			b.WriteString(text)
+			return
+		}
+		for _, x := range xs {
+			if x.IsL && len(x.List) > 3 && (x.List[0].Atom == "define-fun" || x.List[0].Atom == "define-fun-rec") && set[x.List[1].Atom] {
+				var as []string
+				for _, a := range x.List[2].List {
+					as = append(as, a.List[1].String())
+				}
+				fmt.Fprintf(&b, "(declare-fun %s (%s) %s)\n", x.List[1].Atom, strings.Join(as, " "), x.List[3].String())
+				continue
+			}
+			b.WriteString(x.String())
+			b.WriteString("\n")
+		}
+	}
+	conv(e.Spec.PreText)
+	conv(e.Sorts.Decls())
+	conv(builtinPrelude)
+	conv(e.Spec.Text)
+	return b.String()
+}
 
 // Prelude builds the common part of every query.
 func (e *Engine) Prelude() string {
@@ -69,7 +107,7 @@ func (e *Engine) QFPrelude() string {
 		}
 	}
 	conv(e.Spec.PreText)
-	b.WriteString(e.Sorts.Decls())
+	conv(e.Sorts.Decls())
 	conv(builtinPrelude)
 	conv(e.Spec.Text)
 	return b.String()
@@ -226,6 +264,7 @@ type Solver struct {
 	Par       int
 	Prelude   string
 	QFPrelude string
+	Eng       *Engine
 	mu        sync.Mutex
 	ByBackend map[string]*backendStat
 	Seed      int
@@ -282,7 +321,11 @@ func (s *Solver) solveOne(i int, o *Obligation) {
 	if len(file) > 200 {
 		file = file[:200] + ".smt2"
 	}
-	os.WriteFile(file, []byte(o.SMT(s.Prelude)), 0o644)
+	prelude := s.Prelude
+	if len(o.Opaque) > 0 && s.Eng != nil {
+		prelude = s.Eng.opaquePrelude(o.Opaque)
+	}
+	os.WriteFile(file, []byte(o.SMT(prelude)), 0o644)
 	decide := func(a solveAnswer) bool {
 		o.Seconds += a.secs
 		if a.verdict == "unsat" || a.verdict == "sat" {
@@ -339,6 +382,9 @@ func (s *Solver) solveOne(i int, o *Obligation) {
 		a := runSolver(ctx, solvers[0], file, t1)
 		if !decide(a) {
 			o.Status = "covered"
+			if a.verdict == "error" {
+				o.Status = "vacuous" // a broken query must not pass the vacuity guard
+			}
 			o.Backend = a.solver + ":" + a.verdict
 			o.Output = a.output
 		}
@@ -398,4 +444,19 @@ func firstLines(s string, n int) string {
 		ls = ls[:n]
 	}
 	return strings.Join(ls, " | ")
+}
+
+var opaqueCache = map[string]string{}
+var opaqueMu sync.Mutex
+
+func (e *Engine) opaquePrelude(opaque []string) string {
+	key := strings.Join(opaque, ",")
+	opaqueMu.Lock()
+	defer opaqueMu.Unlock()
+	if p, ok := opaqueCache[key]; ok {
+		return p
+	}
+	p := e.PreludeOpaque(opaque)
+	opaqueCache[key] = p
+	return p
 }
